@@ -1150,13 +1150,20 @@ func buildPayloadData(e *expr.HTTPEndpointExpr, sd *ServiceData) *PayloadData {
 					cvcode = codegen.ValidationCode(ut.Attribute(), ut, httpclictx, true, expr.IsAlias(ut), false, "body")
 				}
 			}
+			svrTypeName, svrTypeRef := sd.Scope.GoTypeName(e.Body), sd.Scope.GoTypeRef(e.Body)
+			if _, ok := body.(*expr.Object); ok {
+				// inline server request body: all the fields are
+				// pointers, see buildRequestBodyType.
+				svrTypeName = sd.Scope.GoTypeDef(e.Body, true, false)
+				svrTypeRef = svrTypeName
+			}
 			serverArgs = []*InitArgData{{
 				Ref: sd.Scope.GoVar("body", body),
 				AttributeData: &AttributeData{
 					Name:     "body",
 					VarName:  "body",
-					TypeName: sd.Scope.GoTypeName(e.Body),
-					TypeRef:  sd.Scope.GoTypeRef(e.Body),
+					TypeName: svrTypeName,
+					TypeRef:  svrTypeRef,
 					Type:     body,
 					Required: true,
 					Example:  e.Body.Example(expr.Root.API.ExampleGenerator),
@@ -2035,8 +2042,11 @@ func buildRequestBodyType(body, att *expr.AttributeExpr, e *expr.HTTPEndpointExp
 			// want to force all attributes to be pointers because we are
 			// generating the server body type pre-validation.
 			body.Validation = nil
+			// the same goes for the attributes of the nested inline objects
+			varname = sd.Scope.GoTypeDef(body, true, false)
+		} else {
+			varname = sd.Scope.GoTypeRef(body)
 		}
-		varname = sd.Scope.GoTypeRef(body)
 		desc = body.Description
 	}
 	var init *InitData
